@@ -28,6 +28,8 @@ import (
 	"gitlab.com/yawning/obfs4.git/common/drbg"
 	"gitlab.com/yawning/obfs4.git/common/probdist"
 	"gitlab.com/yawning/obfs4.git/transports/obfs4"
+	"verif.local/harness/o4"
+	ref "verif.local/harness/ref/obfs4"
 	"verif.local/harness/vt"
 	"verif.local/harness/wire"
 )
@@ -119,6 +121,8 @@ func main() {
 			runPad(&s)
 		case "session":
 			runSession(&s)
+		case "seedinject":
+			runSeedInject(&s)
 		}
 	}
 	if err := w.Close(); err != nil {
@@ -394,6 +398,91 @@ wait:
 		w.Emit(vt.Ev{"event": "Write", "cid": ep.cid, "n": n, "pieces": pieces, "ret": r.ret})
 		return true
 	}
+}
+
+// runSeedInject: a (reference) client sends the BRIDGE a well-formed PRNG-seed packet.  The bridge's sizes must keep
+// following ITS seeded distribution.
+func runSeedInject(s *scenario) {
+	b, err := o4.NewBridge(s.Seed, s.SMode, s.Biased)
+	if err != nil {
+		w.Emit(vt.Ev{"event": "DriverDead", "why": err.Error()})
+		return
+	}
+	defer b.Close()
+	l := wire.NewLink(true, 0)
+	srv := &endpoint{raw: l.B, cid: 1}
+	l.Hook = func(c *wire.Conn, what string, data []byte) {
+		if what != "write" || len(data) == 0 || c != l.B {
+			return
+		}
+		srv.mu.Lock()
+		srv.pieces = append(srv.pieces, len(data))
+		srv.mu.Unlock()
+	}
+	type res struct {
+		c   net.Conn
+		err error
+	}
+	sch := make(chan res, 1)
+	go func() { c, err := b.SF.WrapConn(l.B); sch <- res{c, err} }()
+	var rc *ref.Conn
+	if _, err := b.RefClient(100, nil, nil, &rc)(l.A); err != nil {
+		w.Emit(vt.Ev{"event": "DriverDead", "why": "reference client: " + err.Error()})
+		return
+	}
+	sr := <-sch
+	if sr.err != nil {
+		w.Emit(vt.Ev{"event": "DriverDead", "why": "wrap: " + sr.err.Error()})
+		return
+	}
+	srv.conn = sr.c
+	stab, smode, _ := obfs4.VerifLenTable(srv.conn)
+	w.Emit(vt.Ev{"event": "Conn", "cid": 1, "side": "s", "mode": smode, "table": stab})
+	go func() { // the reference side drains what the server sends
+		buf := make([]byte, 65536)
+		for {
+			if _, err := l.A.Read(buf); err != nil {
+				return
+			}
+		}
+	}()
+	got := make(chan int, 16)
+	go func() { // the server application reads
+		buf := make([]byte, 4096)
+		for {
+			n, err := srv.conn.Read(buf)
+			if n > 0 {
+				got <- n
+			}
+			if err != nil {
+				return
+			}
+		}
+	}()
+	for _, n := range []int{1, 1427, 100} {
+		if !doWrite(srv, n) {
+			return
+		}
+	}
+	// the injection: a seed whose table differs, followed by payload so that the server's reader processes it
+	other := seedFromCounter(int(s.SMode) + 4242)
+	rc.WriteRawPacket(ref.PacketTypeSeed, other.Bytes()[:], 0)
+	rc.WritePayload([]byte("ping"), 0)
+	select {
+	case <-got:
+	case <-time.After(10 * time.Second):
+		w.Emit(vt.Ev{"event": "DriverDead", "why": "the server did not read the payload behind the seed packet"})
+		return
+	}
+	now, _, _ := obfs4.VerifLenTable(srv.conn)
+	w.Emit(vt.Ev{"event": "Keep", "cid": 1, "equal": equalInts(now, stab)})
+	for _, n := range s.Writes {
+		if !doWrite(srv, n.N) {
+			return
+		}
+	}
+	srv.conn.Close()
+	l.A.Close()
 }
 
 var _ = hex.EncodeToString
